@@ -12,3 +12,4 @@ import BqlVerif.Properties.C05
 import BqlVerif.Properties.C17
 import BqlVerif.Properties.C18
 import BqlVerif.Properties.C12
+import BqlVerif.Properties.C20
